@@ -165,3 +165,27 @@ func H_C02_vacuity() {
 	l.Info(vxString(1))
 	vxAssert(len(w.writes) == 0, "vacuity twin (expected to fail)")
 }
+
+// ---------------------------------------------------------------- Engine 2 setup: goroutines logging concurrently
+
+type c02ConcW struct{ n int }
+
+func (w *c02ConcW) Write(p []byte) (int, error) {
+	vxObs("write_enter", len(p))
+	w.n++ // the destination's own state: a plain shared cell, touched only inside Write
+	vxObs("write_exit", len(p))
+	return len(p), nil
+}
+
+// S_c02: three goroutines log through the root logger and through loggers derived from it (one derives
+// inside its goroutine); the real Handle of the chosen handler kind runs in each.
+func S_c02() {
+	kind := vxParam("kind")
+	w := &c02ConcW{}
+	root, _ := c02Root(kind, w, LevelDebug)
+	derived := root.With("a", 1).WithGroup("g")
+	vxPoolMode(2) // each record assembles its line in a buffer of its own (ownership is H_C02_ownership's subject)
+	vxProc("root", func() { root.Info("m1") })
+	vxProc("derived", func() { derived.Warn("m2", "k", 2) })
+	vxProc("late", func() { root.WithGroup("late").With("b", 3).Error("m3") })
+}
